@@ -37,6 +37,7 @@ type sched struct {
 	finished chan struct{}
 	result   interface{} // nil or the internal/target panic that ended the path
 	ended    bool
+	settling bool // deterministic scheduling (lowest id first), no decisions recorded
 }
 
 func (m *Machine) runThreaded(h *HarnessSpec) {
@@ -177,6 +178,9 @@ func (s *sched) pickNext(m *Machine, cur *thread, includeCur bool) *thread {
 		m.violation("deadlock", "deadlock", "all threads blocked:"+who, m.model)
 		panic(pathEnd{"violation"})
 	}
+	if s.settling {
+		return opts[0]
+	}
 	c := m.choose(len(opts), 's')
 	s.schedule = append(s.schedule, opts[c].id)
 	return opts[c]
@@ -196,7 +200,7 @@ func (s *sched) yield(m *Machine, why string) {
 	if others == 0 {
 		return
 	}
-	if s.preempts >= m.P.MaxPreempt {
+	if s.settling || s.preempts >= m.P.MaxPreempt {
 		return
 	}
 	next := s.pickNext(m, me, true)
